@@ -32,6 +32,9 @@ def _textcodec(encoding):
     hex, zlib ...) with a ``LookupError``.
     """
     info = codecs.lookup(encoding)
+    if info.name == "css":
+        # in any spelling ("CSS", "Css"): it would call itself
+        raise ValueError("css not allowed as encoding name")
     if not getattr(info, "_is_text_encoding", True):
         raise LookupError(
             "%r is not a text encoding; it cannot be the encoding of a style sheet"
